@@ -244,8 +244,22 @@ func (eval Evaluator) ShallowCopy() *Evaluator {
 		BasisExtender:     eval.BasisExtender.ShallowCopy(),
 		EvaluatorBuffers:  NewEvaluatorBuffers(eval.params),
 		EvaluationKeySet:  eval.EvaluationKeySet,
-		automorphismIndex: eval.automorphismIndex,
+		automorphismIndex: cloneAutomorphismIndex(eval.automorphismIndex),
 	}
+}
+
+// cloneAutomorphismIndex returns a new map holding the same (read-only) index tables.
+// The map itself is written lazily by CheckAndGetGaloisKey and therefore must not be
+// shared between evaluators that are used concurrently.
+func cloneAutomorphismIndex(m map[uint64][]uint64) map[uint64][]uint64 {
+	if m == nil {
+		return nil
+	}
+	c := make(map[uint64][]uint64, len(m))
+	for k, v := range m {
+		c[k] = v
+	}
+	return c
 }
 
 // WithKey creates a shallow copy of the receiver [Evaluator] for which the new [EvaluationKey] is evaluationKey
